@@ -465,7 +465,19 @@ fn typed_case(i: u64, p: &Params, rep: &mut Report) {
         }
         5 => {
             let base = clamp_date(date_any(&mut r)).and_hms_opt(10, 0, 0).unwrap();
-            let ts = vec![base, base + chrono::Duration::milliseconds(500), base + chrono::Duration::seconds(1), base + chrono::Duration::microseconds(1), datetime_any(&mut r)];
+            // around midnight too: only exact midnights are dates
+            let midnight = clamp_date(date_any(&mut r)).and_hms_opt(0, 0, 0).unwrap();
+            let ts = vec![
+                base,
+                base + chrono::Duration::milliseconds(500),
+                base + chrono::Duration::seconds(1),
+                base + chrono::Duration::microseconds(1),
+                datetime_any(&mut r),
+                midnight,
+                midnight + chrono::Duration::milliseconds(250),
+                midnight + chrono::Duration::nanoseconds(1),
+                midnight + chrono::Duration::seconds(1),
+            ];
             let vals: Vec<val::DateTime> = ts.iter().map(|d| (*d).into()).collect();
             typed_pair("DateTime->Text", dt::DateTime::from_values(ts.clone()), dt::Text::default(), &vals, &|_, _| None, &|_| None, rep);
             typed_pair("DateTime->Date", dt::DateTime::from_values(ts.clone()), dt::Date::default(), &vals, &|v, w| Some(v.date() == **w && v.time() == chrono::NaiveTime::MIN), &|_| None, rep);
